@@ -78,8 +78,19 @@ def gen_case(r, index, tier):
             tot += sum((b[2] - b[0]) * (b[3] - b[1]) for b in m["boxes"])
     refine = {"how": "split", "r": r.choice([1.5, 2, 3]), "n": r.randint(2, 12)} if (die["regions"] or r.chance(0.7)) else \
         {"how": "grid", "rows": r.randint(1, 4), "cols": r.randint(1, 4)}
+    # overlap-heavy family: big soft modules piled on the same spot of a fine grid (whole cells start fully claimed by
+    # several modules at once)
+    if r.chance(0.15):
+        softs = [m for m in nl["modules"] if m["kind"] == "soft"]
+        for m in softs[:2]:
+            m["area"] = max(2, free // 3)
+            m["center"] = (die["nx"], die["ny"])
+        refine = {"how": "split", "r": 2, "n": r.randint(8, 12)}
     faults = []
-    if r.chance(0.4):
+    flips = [m["name"] for m in nl["modules"] if m["kind"] == "hard" and m.get("flip") and len(m.get("boxes", [])) > 1]
+    if flips and r.chance(0.5):
+        faults.append({"solve": r.weighted([(1, 5), (2, 2)]), "kind": "mirror", "axis": r.choice(["x", "y"]), "modules": flips})
+    elif r.chance(0.4):
         faults.append({"solve": r.weighted([(1, 5), (2, 3), (3, 1)]), "kind": r.choice(["killed", "error", "truncated", "missing", "enospc"]),
                        "byte": r.randint(1, 400)})
     return {"engine": "c10", "die": die, "net": nl, "refine": refine, "threshold": r.choice([0.6, 0.7, 0.8, 0.9, 0.95, 0.99]),
@@ -225,7 +236,7 @@ def _judge(ret, snap, W, H, size, key, viol):
 def run_case(case):
     OPT, D, N, GK = _m["OPT"], _m["D"], _m["N"], _m["GK"]
     viol, hist, probes, fired, configured = [], [], {}, {}, {}
-    scratch = tempfile.mkdtemp(prefix="frame-verif-", dir="/dev/shm" if os.path.isdir("/dev/shm") else None)
+    scratch = tempfile.mkdtemp(prefix="frame-verif-", dir=os.environ.get("VERIF_SCRATCH") or ("/dev/shm" if os.path.isdir("/dev/shm") else None))
     tempfile.tempdir = scratch
     solver = SimSolver(case.get("faults"))
     GK.subprocess = solver
@@ -259,9 +270,12 @@ def run_case(case):
             hist.append({"out": outcome, "exc": repr(e)[:120]})
         for f in solver.fired:
             fired[f["kind"]] = fired.get(f["kind"], 0) + 1
-        faulted = bool(solver.fired)
+        faulted = any(f["kind"] != "mirror" for f in solver.fired)
+        if any(f["kind"] == "mirror" for f in solver.fired):
+            probes["solver_answer_mirrored"] = 1
         if ret is not None:
-            key = {"after_fault": solver.fired[0]["kind"] if faulted else "none"}
+            real_faults = [f["kind"] for f in solver.fired if f["kind"] != "mirror"]
+            key = {"after_fault": real_faults[0] if real_faults else "none"}
             cells = _judge(ret, snap, W, H, size, key, viol)
             rdie = ret[0]
             hist.append({"out": "returned", "cells": len(cells), "solves": solver.nsolve, "faults": [f["kind"] for f in solver.fired]})
@@ -289,12 +303,16 @@ def run_case(case):
                         raise
                     ret2 = None
                     hist.append({"out": "second call raised " + type(e).__name__})
+                for f in solver.fired:
+                    fired[f["kind"]] = fired.get(f["kind"], 0) + 1
                 if ret2 is not None:
-                    _judge(ret2, snap2, W, H, size, {"after_fault": "none", "call": "second"}, viol)
+                    rf2 = [f["kind"] for f in solver.fired if f["kind"] != "mirror"]
+                    k2 = {"after_fault": rf2[0] if rf2 else "none", "call": "second"}
+                    _judge(ret2, snap2, W, H, size, k2, viol)
                     hist.append({"out": "second call returned", "edited": edited})
                     probes["second_call_on_same_objects" + ("_after_edit" if edited else "")] = 1
             if faulted:
-                probes["returned_despite_fault_" + solver.fired[0]["kind"]] = 1
+                probes["returned_despite_fault_" + real_faults[0]] = 1
             if any(s["kind"] == "hard" and len(s["rects"]) > 1 for s in snap.values()):
                 probes["hard_module_with_several_rectangles"] = 1
             if any(s["kind"] == "fixed" for s in snap.values()):
@@ -302,7 +320,7 @@ def run_case(case):
             if solver.nsolve >= 2:
                 probes["refine_optimise_loop_iterated"] = 1
         elif faulted:
-            probes["raised_after_fault_" + solver.fired[0]["kind"]] = 1
+            probes["raised_after_fault_" + [f["kind"] for f in solver.fired if f["kind"] != "mirror"][0]] = 1
         else:
             probes["did_not_return_" + outcome.split(" ")[-1]] = 1
         return _result(case, viol, hist, probes, fired, configured, ret is not None or faulted, outcome, solver)
